@@ -11,7 +11,7 @@ import "reflect"
 
 // h06Body returns a grouping body (as written in the defining module) and the same body with
 // nested uses expanded by hand (as it would be written inline).
-var h06HasAct bool
+var h06HasAct, h06HasFeat bool
 
 func h06Body() (string, string) {
 	defer func() {}()
@@ -28,7 +28,8 @@ func h06Body() (string, string) {
 	case 1:
 		add(`list ls { key k; leaf k { type string; } max-elements 9; } `)
 	}
-	if symBool() {
+	h06HasFeat = symBool()
+	if h06HasFeat {
 		add(`container slot { description "empty"; } `)
 	}
 	hasAct := symBool()
@@ -39,7 +40,15 @@ func h06Body() (string, string) {
 	if symBool() {
 		add(`choice ch { case c1 { leaf a1 { type string; } } leaf a2 { type t; } } `)
 	}
-	switch symChoice(3) {
+	if h06HasFeat {
+		// (drawn together with the empty container to keep the universe small)
+		// three entries on the copy's list of unsupported statements leave spare capacity for a fourth
+		add(`leaf fl { type string; if-feature f1; if-feature f2; if-feature f3; } `)
+	}
+	switch symChoice(4) {
+	case 3: // nested uses of a grouping of ANOTHER module that has the same name as this one
+		body += `uses x3:g; `
+		inline += `leaf xl { type boolean; } `
 	case 0: // nested uses of a sibling grouping
 		body += `uses h; `
 		inline += `container hc { leaf hl { type identityref { base idn; } } } `
@@ -54,6 +63,11 @@ func h06Body() (string, string) {
 // h06Shared asserts that two subtrees share no entry, list attributes, child map or default array.
 func h06Collect(e *Entry, entries map[*Entry]bool, attrs map[*ListAttr]bool, dirs map[uintptr]bool, defs map[*string]bool) {
 	entries[e] = true
+	for _, v := range e.Extra {
+		if len(v) > 0 {
+			h06Extras[&v[0]] = true
+		}
+	}
 	if e.ListAttr != nil {
 		attrs[e.ListAttr] = true
 	}
@@ -68,11 +82,19 @@ func h06Collect(e *Entry, entries map[*Entry]bool, attrs map[*ListAttr]bool, dir
 	}
 }
 
+var h06Extras map[*interface{}]bool
+
 func h06Disjoint(a, b *Entry) {
 	ea, aa, da, fa := map[*Entry]bool{}, map[*ListAttr]bool{}, map[uintptr]bool{}, map[*string]bool{}
 	eb, ab, db, fb := map[*Entry]bool{}, map[*ListAttr]bool{}, map[uintptr]bool{}, map[*string]bool{}
+	h06Extras = map[*interface{}]bool{}
 	h06Collect(a, ea, aa, da, fa)
+	xa := h06Extras
+	h06Extras = map[*interface{}]bool{}
 	h06Collect(b, eb, ab, db, fb)
+	for k := range xa {
+		check(!h06Extras[k], "two uses of a grouping share no storage of statements kept verbatim (if-feature, must, ...)")
+	}
 	for k := range ea {
 		check(!eb[k], "two uses of a grouping share no node object")
 	}
@@ -103,20 +125,22 @@ func H06() {
 	local := symBool() // grouping defined in the using module m, or in module g2
 	// module g2 defines typedef t = int8 and identity idn; module m defines typedef t = string
 	// and its own identity idn: names inside the grouping must resolve where it is defined
-	gdefs := `typedef t { type int8; } identity idn; grouping h { container hc { leaf hl { type identityref { base idn; } } } } grouping g { ` + body + `} `
+	gdefs := `feature f1; feature f2; feature f3; typedef t { type int8; } identity idn; grouping h { container hc { leaf hl { type identityref { base idn; } } } } grouping g { ` + body + `} `
 	var m, g2 string
 	usesG := "uses g2:g;"
 	if local {
-		m = `module m { yang-version 1.1; namespace "urn:m"; prefix m; import g2 { prefix g2; } ` + gdefs + `container u1 { uses g; } container u2 { uses g; } list u3 { key k; leaf k { type string; } uses g; } }`
+		m = `module m { yang-version 1.1; namespace "urn:m"; prefix m; import g2 { prefix g2; } import x3 { prefix x3; } feature fa; feature fb; ` + gdefs + `container u1 { uses g { if-feature fa; } } container u2 { uses g { if-feature fb; } } list u3 { key k; leaf k { type string; } uses g; } }`
 		g2 = `module g2 { yang-version 1.1; namespace "urn:g2"; prefix g2; typedef t { type string; } identity idn; }`
 		usesG = "uses mm:g;"
 	} else {
-		m = `module m { yang-version 1.1; namespace "urn:m"; prefix m; import g2 { prefix g2; } typedef t { type string; } identity idn; container u1 { uses g2:g; } container u2 { uses g2:g; } list u3 { key k; leaf k { type string; } uses g2:g; } }`
-		g2 = `module g2 { yang-version 1.1; namespace "urn:g2"; prefix g2; ` + gdefs + `}`
+		m = `module m { yang-version 1.1; namespace "urn:m"; prefix m; import g2 { prefix g2; } feature fa; feature fb; typedef t { type string; } identity idn; container u1 { uses g2:g { if-feature fa; } } container u2 { uses g2:g { if-feature fb; } } list u3 { key k; leaf k { type string; } uses g2:g; } }`
+		g2 = `module g2 { yang-version 1.1; namespace "urn:g2"; prefix g2; import x3 { prefix x3; } ` + gdefs + `}`
 	}
 	a := `module a { yang-version 1.1; namespace "urn:a"; prefix a; import m { prefix mm; } import g2 { prefix g2; } container ua { ` + usesG + ` } }`
 	// the same body written inline where the grouping is defined, in a module of its own
-	ref := `module r { yang-version 1.1; namespace "urn:r"; prefix r; typedef t { type int8; } identity idn; container u1 { ` + inline + `} }`
+	ref := `module r { yang-version 1.1; namespace "urn:r"; prefix r; feature f1; feature f2; feature f3; typedef t { type int8; } identity idn; container u1 { ` + inline + `} }`
+	// a module that has a grouping of its own named like the one under study
+	x3 := `module x3 { yang-version 1.1; namespace "urn:x3"; prefix x3; grouping g { leaf xl { type boolean; } } }`
 	// a module aiming at instance u1 only
 	aim := ""
 	aimLeafDefault := symBool()
@@ -128,7 +152,7 @@ func H06() {
 	d := `module d { yang-version 1.1; namespace "urn:d"; prefix d; import m { prefix mm; } ` + "AIM" + `}`
 	note(m + g2 + a)
 
-	ms, lerrs := hLoad(m, g2, a, ref)
+	ms, lerrs := hLoad(m, g2, a, ref, x3)
 	check(len(lerrs) == 0, "the modules parse")
 	if len(lerrs) > 0 {
 		return
@@ -157,6 +181,26 @@ func H06() {
 	check(hReplaceNS(h06Sub(ua), "urn:a", "urn:r") == sr, "a use from another module is identical, in that module's namespace")
 	// scoping: type t is the defining module's int8 and the identityref sees the defining module's identity
 	check(u1.Dir["lf"].Type.Kind == Yint8 && ua.Dir["lf"].Type.Kind == Yint8, "type names inside the grouping resolve in the defining scope")
+	// statements kept verbatim on each copy: the grouping's own, then those of its use
+	if h06HasFeat {
+		for _, c := range []struct {
+			u    *Entry
+			last string
+		}{{u1, "fa"}, {u2, "fb"}, {u3, ""}, {u1, "fa"}} {
+			x := c.u.Dir["fl"].Extra["if-feature"]
+			want := []string{"f1", "f2", "f3"}
+			if c.last != "" {
+				want = append(want, c.last)
+			}
+			check(len(x) == len(want), "each copy carries the grouping's if-feature statements and those of its own use")
+			if len(x) == len(want) {
+				for i, w := range want {
+					v, ok := x[i].(*Value)
+					check(ok && v != nil && v.Name == w, "each copy carries the grouping's if-feature statements and those of its own use, not another use's")
+				}
+			}
+		}
+	}
 	// independence: no sharing
 	h06Disjoint(u1, u2)
 	h06Disjoint(u1, u3)
@@ -170,8 +214,16 @@ func H06() {
 			aim += `deviation /mm:u1/mm:ls { deviate add { min-elements 3; } } `
 		}
 	}
+	etext := ""
 	if aimSlot && u1.Dir["slot"] != nil {
-		aim += `augment /mm:u1/mm:slot { leaf added { type string; } } `
+		aim += `augment /mm:u1/mm:slot { leaf added { type string; } container dd; } `
+		// a third module uses the grouping h below the node that d's augment adds (two namespace
+		// changes on one path: the copies belong to the module that uses them, e)
+		hname := "g2:h"
+		if local {
+			hname = "mm:h"
+		}
+		etext = `module e { yang-version 1.1; namespace "urn:e"; prefix e; import m { prefix mm; } import g2 { prefix g2; } import d { prefix d; } augment /mm:u1/mm:slot/d:dd { uses ` + hname + `; } }`
 	}
 	if aimSlot && h06HasAct {
 		// into the input that the action does not write, and into the written one
@@ -189,7 +241,11 @@ func H06() {
 			dtext += string([]byte{d[i]})
 		}
 	}
-	msB, lerrsB := hLoad(m, g2, a, ref, dtext)
+	textsB := []string{m, g2, a, ref, x3, dtext}
+	if etext != "" {
+		textsB = append(textsB, etext)
+	}
+	msB, lerrsB := hLoad(textsB...)
 	check(len(lerrsB) == 0, "the aiming module parses")
 	errsB := msB.Process()
 	check(len(errsB) == 0, "the aiming module processes")
@@ -206,6 +262,15 @@ func H06() {
 	delete(bm.Dir["u3"].Dir, "k")
 	check(h06Sub(bm.Dir["u3"]) == s1, "changing one instance leaves the instance in the list unchanged")
 	bm.Dir["u3"].Dir["k"] = k3
+	if etext != "" {
+		dd := bm.Dir["u1"].Dir["slot"].Dir["dd"]
+		check(dd != nil && dd.Dir["hc"] != nil && dd.Dir["hc"].Dir["hl"] != nil, "a use inside an augment of an augmented node is expanded")
+		if dd != nil && dd.Dir["hc"] != nil && dd.Dir["hc"].Dir["hl"] != nil {
+			check(dd.Namespace().Name == "urn:d", "the augmenting module's node keeps its namespace")
+			check(dd.Dir["hc"].Namespace().Name == "urn:e" && dd.Dir["hc"].Dir["hl"].Namespace().Name == "urn:e", "copies belong to the namespace of the module that uses the grouping, also below another module's augment")
+			check(bm.Dir["u1"].Dir["slot"].Namespace().Name == "urn:m", "the grouping's own copy stays in its user's namespace")
+		}
+	}
 	if aimLeafDefault {
 		check(len(bm.Dir["u1"].Dir["lf"].Default) == 1 && bm.Dir["u1"].Dir["lf"].Default[0] == "9", "the aimed instance did change")
 	}
